@@ -344,6 +344,20 @@ func (x *Exec) eqTerms(a, b Term) Term {
 	if x.W.IsSeq(a.Sort) && a.Sort == b.Sort {
 		return x.seqEq(a, b)
 	}
+	if isArraySort(a.Sort) && a.Sort == b.Sort && a.S != b.S {
+		// Go fixed-size arrays: equality of the N elements only
+		for _, t := range []types.Type{a.GoT, b.GoT} {
+			if at, ok := typeUnder(t).(*types.Array); ok && at.Len() <= 32 {
+				var cs []Term
+				for i := int64(0); i < at.Len(); i++ {
+					ea, eb := Select(a, IntLit(i)), Select(b, IntLit(i))
+					ea.GoT, eb.GoT = at.Elem(), at.Elem()
+					cs = append(cs, x.eqTerms(ea, eb))
+				}
+				return And(cs...)
+			}
+		}
+	}
 	return Eq(a, b)
 }
 
